@@ -158,6 +158,10 @@ class Executor:
                 return S.SpecObj({a: self.spec_value(st, x) for a, x in c.attrs.items()})
             if isinstance(c, SeqContent):
                 return S.SpecSeq(c, v)
+            if isinstance(c, SetListContent):
+                return S.SpecSetList(c)
+            if isinstance(c, MapListContent):
+                return S.SpecMapList(c)
             if isinstance(c, (SetContent, DictContent)):
                 return c
             raise OutOfSubset('spec view of %r' % c)
@@ -169,6 +173,10 @@ class Executor:
             return S.SpecObj({'arr': self.spec_value(st, v.ref), 'offset': v.offset, 'ref': v.ref})
         if isinstance(v, VFunc) and hasattr(v, 'z3fn'):
             return v.z3fn
+        if isinstance(v, VSetVal):
+            return v.arr
+        if isinstance(v, VSetView):
+            return z3.Select(st.heap[v.ref.id].data, to_z3(v.idx))
         return v
 
     def view(self, st, extra=None):
@@ -256,7 +264,36 @@ class Executor:
         return v
 
     # ------------------------------------------------------------------ arithmetic
+    def as_set(self, st, v, node):
+        """(z3 set array, elem sort) of a set-like value, or None"""
+        if isinstance(v, VSetVal):
+            return v.arr, v.elem_sort
+        if isinstance(v, VSetView):
+            c = st.heap[v.ref.id]
+            return z3.Select(c.data, to_z3(v.idx)), c.elem_sort
+        return None
+
     def binop(self, st, op, a, b, node):
+        sa, sb = self.as_set(st, a, node), self.as_set(st, b, node)
+        if sa is not None or sb is not None:
+            if sa is None or sb is None:
+                # set() | x with an empty concrete container
+                other = sa or sb
+                def empty_like(v):
+                    if isinstance(v, Ref) and isinstance(st.heap[v.id], ListContent) and not st.heap[v.id].items:
+                        return z3.EmptySet(other[1]), other[1]
+                    if isinstance(v, VTuple) and len(v) == 0:
+                        return z3.EmptySet(other[1]), other[1]
+                    raise OutOfSubset('set operation with a non-set operand (%r) at line %d' % (v, node.lineno))
+                sa = sa or empty_like(a)
+                sb = sb or empty_like(b)
+            if isinstance(op, ast.BitOr):
+                return VSetVal(z3.SetUnion(sa[0], sb[0]), sa[1])
+            if isinstance(op, ast.BitAnd):
+                return VSetVal(z3.SetIntersect(sa[0], sb[0]), sa[1])
+            if isinstance(op, ast.Sub):
+                return VSetVal(z3.SetDifference(sa[0], sb[0]), sa[1])
+            raise OutOfSubset('set operator %s at line %d' % (type(op).__name__, node.lineno))
         if isinstance(a, VOpaque) or isinstance(b, VOpaque) or is_vec(a) or is_vec(b):
             # abstract vectors / unmodelled objects: an uninterpreted function of the operands
             for x in (a, b):
@@ -450,6 +487,12 @@ class Executor:
                 ast.LtE: lambda: a <= b, ast.Gt: lambda: a > b, ast.GtE: lambda: a >= b}[type(op)]()
 
     def contains(self, st, cont, x, node):
+        sc = self.as_set(st, cont, node)
+        if sc is not None:
+            return z3.IsMember(self.pack(x, sc[1]), sc[0])
+        if isinstance(cont, VMapView):
+            c = st.heap[cont.ref.id]
+            return z3.Select(z3.Select(c.has, to_z3(cont.idx)), to_z3(x))
         if isinstance(cont, VTuple):
             parts = [self.compare(st, ast.Eq(), x, y, node) for y in cont]
             if all(isinstance(p, bool) for p in parts):
@@ -470,6 +513,8 @@ class Executor:
         if isinstance(x, (VTuple, tuple)):
             ctor = sort.constructor(0)
             return ctor(*[to_z3(e) for e in x])
+        if is_z3(x) and x.sort() == sort:
+            return x
         return to_z3(x)
 
     # ------------------------------------------------------------------ indexing
@@ -533,6 +578,16 @@ class Executor:
             c = st.heap[base.ref.id]
             flat = self.binop(st, ast.Add(), base.offset, idx, node)
             return self.flat_load(st, c, flat, node)
+        if isinstance(base, VMapView):
+            c = st.heap[base.ref.id]
+            self.oblige(st, 'safe:key', node, z3.Select(z3.Select(c.has, to_z3(base.idx)), to_z3(idx)), 'key present (KeyError otherwise)')
+            return z3.Select(z3.Select(c.val, to_z3(base.idx)), to_z3(idx))
+        if isinstance(base, Ref) and isinstance(st.heap[base.id], (SetListContent, MapListContent)):
+            c = st.heap[base.id]
+            if not is_int(idx):
+                raise OutOfSubset('non-integer index into a list at line %d' % node.lineno)
+            self.oblige(st, 'safe:index', node, z3.And(to_z3(idx) >= 0, to_z3(idx) < to_z3(c.length)), 'list index in range')
+            return VSetView(base, idx) if isinstance(c, SetListContent) else VMapView(base, idx)
         if isinstance(base, Ref):
             c = st.heap[base.id]
             if isinstance(c, ArrContent):
@@ -642,6 +697,22 @@ class Executor:
         return r
 
     def subscript_store(self, st, base, idx, val, node):
+        if isinstance(base, VMapView):
+            c = st.heap[base.ref.id]
+            p_ = to_z3(base.idx)
+            c.has = z3.Store(c.has, p_, z3.Store(z3.Select(c.has, p_), to_z3(idx), z3.BoolVal(True)))
+            c.val = z3.Store(c.val, p_, z3.Store(z3.Select(c.val, p_), to_z3(idx), to_z3(val)))
+            return
+        if isinstance(base, Ref) and isinstance(st.heap[base.id], SetListContent):
+            c = st.heap[base.id]
+            self.oblige(st, 'safe:index', node, z3.And(to_z3(idx) >= 0, to_z3(idx) < to_z3(c.length)), 'list index in range')
+            sv = self.as_set(st, val, node)
+            if sv is None and isinstance(val, VTuple) and len(val) == 0:
+                sv = (z3.EmptySet(c.elem_sort), c.elem_sort)
+            if sv is None:
+                raise OutOfSubset('storing a non-set into a list of sets at line %d' % node.lineno)
+            c.data = z3.Store(c.data, to_z3(idx), sv[0])
+            return
         if isinstance(base, VPtr):
             c = st.heap[base.ref.id]
             flat = self.binop(st, ast.Add(), base.offset, idx, node)
@@ -871,6 +942,8 @@ class Executor:
                         n = n * s_
                     return n
             return VFunc('method:' + a, ('method', base, a))
+        if isinstance(base, VSetView):
+            return VFunc('setmethod:' + a, ('setmethod', base, a))
         if isinstance(base, VOpaque):
             return VOpaque(base.what + '.' + a)
         if is_vec(base):
@@ -913,11 +986,45 @@ class Executor:
         f = self.ev(node.func, st)
         args = [self.ev(a, st) for a in node.args]
         kwargs = {k.arg: self.ev(k.value, st) for k in node.keywords}
+        if isinstance(f, VNested):
+            # straight-line nested helper (closure over the enclosing frame): executed in place
+            fn = f.node
+            names = [a.arg for a in fn.args.args]
+            saved = dict(st.env)
+            for nme, v in zip(names, args):
+                st.env[nme] = v
+            outs = self.exec_block(fn.body, st)
+            if len(outs) != 1 or outs[0][0] is not st:
+                raise OutOfSubset('nested function %s forks at line %d' % (fn.name, node.lineno))
+            out = outs[0][1]
+            st.env = saved
+            if out is None:
+                return None
+            if isinstance(out, tuple) and out[0] == 'return':
+                return out[1]
+            raise OutOfSubset('nested function %s ends with %r' % (fn.name, out))
         if isinstance(f, VFunc):
             if f.fn is None:
                 raise OutOfSubset('call of %s outside a statement position at line %d' % (f.name, node.lineno))
             if isinstance(f.fn, tuple) and f.fn[0] == 'method':
                 return self.call_method(st, f.fn[1], f.fn[2], args, kwargs, node)
+            if isinstance(f.fn, tuple) and f.fn[0] == 'setmethod':
+                view, mname = f.fn[1], f.fn[2]
+                c = st.heap[view.ref.id]
+                cur = z3.Select(c.data, to_z3(view.idx))
+                if mname == 'add':
+                    c.data = z3.Store(c.data, to_z3(view.idx), z3.SetAdd(cur, self.pack(args[0], c.elem_sort)))
+                    return None
+                if mname == 'discard':
+                    c.data = z3.Store(c.data, to_z3(view.idx), z3.SetDel(cur, self.pack(args[0], c.elem_sort)))
+                    return None
+                if mname == 'update':
+                    sv = self.as_set(st, args[0], node)
+                    if sv is None:
+                        raise OutOfSubset('set.update with a non-set at line %d' % node.lineno)
+                    c.data = z3.Store(c.data, to_z3(view.idx), z3.SetUnion(cur, sv[0]))
+                    return None
+                raise OutOfSubset('set method %s at line %d' % (mname, node.lineno))
             return f.fn(self, st, node, *args, **kwargs)
         if isinstance(f, VOpaque):
             self.notes.append('unmodelled call %s (line %d): result opaque' % (f.what, node.lineno))
@@ -1191,7 +1298,10 @@ class Executor:
         return [(st, None)]
 
     def x_FunctionDef(self, s, st):
-        st.env[s.name] = VOpaque('nested function ' + s.name)
+        if self.contract.options.get('inline_nested', False):
+            st.env[s.name] = VNested(s)
+        else:
+            st.env[s.name] = VOpaque('nested function ' + s.name)
         return [(st, None)]
 
     def x_Try(self, s, st):
@@ -1294,6 +1404,7 @@ class Executor:
         t = self.truth(st, self.ev(s.test, st), s)
         self.oblige(st, 'safe:assert', s, t, 'assert statement holds')
         self.assume(st, t)
+        self.ghost_hook(s, st)
         return [(st, None)]
 
     def x_Raise(self, s, st):
@@ -1443,6 +1554,8 @@ class Executor:
         """fresh value of the same shape/sort"""
         if v is _UNSET or v is None:
             return v
+        if is_z3(v) and v.sort().kind() == z3.Z3_ARRAY_SORT:
+            return z3.Const(fresh_name(name), v.sort())
         if isinstance(v, bool) or (is_z3(v) and z3.is_bool(v)):
             return z3.Bool(fresh_name(name))
         if is_int(v):
@@ -1452,6 +1565,10 @@ class Executor:
             return z3.Real(fresh_name(name))
         if is_vec(v):
             return fresh_vec(name)
+        if isinstance(v, VSetVal):
+            return VSetVal(z3.Const(fresh_name(name), v.arr.sort()), v.elem_sort)
+        if isinstance(v, (VSetView, VMapView, VNested)):
+            return v
         if isinstance(v, VFunc):
             return v
         if isinstance(v, VTuple):
@@ -1486,6 +1603,13 @@ class Executor:
             c.vals = z3.Const(fresh_name(ref.label + '.vals'), c.vals.sort())
         elif isinstance(c, ObjContent):
             pass
+        elif isinstance(c, SetListContent):
+            c.data = z3.Const(fresh_name(ref.label), c.data.sort())
+            c.length = z3.Int(fresh_name(ref.label + '.len'))
+            st.pc.append(c.length >= 0)
+        elif isinstance(c, MapListContent):
+            c.has = z3.Const(fresh_name(ref.label + '.has'), c.has.sort())
+            c.val = z3.Const(fresh_name(ref.label + '.val'), c.val.sort())
         else:
             raise OutOfSubset('cannot havoc content %r' % c)
 
@@ -1526,10 +1650,106 @@ class Executor:
                     return self.unroll(s, st, [v for v in range(lo, hi, step)])
                 raise OutOfSubset('loop %d (line %d): symbolic range and no loop contract' % (k, s.lineno))
             return self.loop_with_inv(s, st, spec, k, rng=(lo, hi, step))
+        if spec is not None and not spec.unroll:
+            it = s.iter
+            # zip(A, B, ...) / a single 1-d array with a loop contract: counter loop over the common length
+            if isinstance(it, ast.Call) and isinstance(it.func, ast.Name) and it.func.id == 'zip':
+                arrs = [self.ev(a, st) for a in it.args]
+                tuple_target = True
+            else:
+                v = self.ev(it, st)
+                sv = self.as_set(st, v, s)
+                if sv is not None:
+                    return self.loop_over_set(s, st, spec, k, sv)
+                arrs = [v]
+                tuple_target = False
+            conts = []
+            for a in arrs:
+                if not (isinstance(a, Ref) and isinstance(st.heap[a.id], (ArrContent, SeqContent))):
+                    raise OutOfSubset('loop %d (line %d): iteration over %r under a loop contract' % (k, s.lineno, a))
+                conts.append(a)
+            lens = [self._seq_len(st, a) for a in conts]
+            n = lens[0]
+            for m in lens[1:]:
+                n = z3.If(to_z3(m) < to_z3(n), to_z3(m), to_z3(n))
+
+            def bind(state, cval):
+                vals = [self._seq_get(state, a, cval) for a in conts]
+                self.assign_target(state, s.target, VTuple(vals) if tuple_target else vals[0], s)
+            return self.loop_with_inv(s, st, spec, k, rng=(0, n, 1), ctr_name='_it%d' % k, bind_fn=bind)
         # iteration over a concrete-length iterable
         itv = self.ev(s.iter, st)
         vals = self.iter_values(st, itv, s)
         return self.unroll(s, st, vals)
+
+    def _seq_len(self, st, ref):
+        c = st.heap[ref.id]
+        return c.shape[0] if isinstance(c, ArrContent) else c.length
+
+    def _seq_get(self, st, ref, i):
+        c = st.heap[ref.id]
+        if isinstance(c, ArrContent):
+            if c.ndim != 1:
+                raise OutOfSubset('iteration over an n-d array')
+            return z3.Select(c.data, to_z3(i))
+        return z3.Select(c.data, to_z3(i))
+
+    def loop_over_set(self, s, st, spec, k, sv):
+        """for x in S with a loop contract: ghost set `_visited<k>` of the elements already iterated; one arbitrary
+        unvisited element per iteration; exits when every element was visited"""
+        arr0, es = sv
+        tag = 'loop%d' % k
+        vis = '_visited%d' % k
+        names, roots = self.assigned_names(s.body)
+        names.add(vis)
+        st.env[vis] = VSetVal(z3.EmptySet(es), es)
+        v0 = self.view(st)
+        for (lab, f) in S.labelled(spec.inv(v0) if spec.inv else [], 'inv'):
+            self.oblige(st, 'inv-init', s, f, 'loop invariant holds on entry', label='%s:%s' % (tag, lab))
+        head = st.fork()
+        for r in sorted(roots):
+            v = self.resolve_root(head, r)
+            if isinstance(v, Ref):
+                self.havoc_content(head, v)
+            elif isinstance(v, (VSetView, VMapView)):
+                self.havoc_content(head, v.ref)
+        for n in sorted(names):
+            if n in head.env:
+                head.env[n] = self.havoc_value(head, head.env[n], n)
+        # the iterated set itself must not change while iterating
+        vh = self.view(head)
+        for (lab, f) in S.labelled(spec.inv(vh) if spec.inv else [], 'inv'):
+            self.assume(head, f)
+        visited = head.env[vis].arr
+        self.assume(head, z3.IsSubset(visited, arr0))
+        results = []
+        # body
+        hb = head.fork()
+        e = z3.Const(fresh_name('elem'), es)
+        self.assume(hb, z3.And(z3.IsMember(e, arr0), z3.Not(z3.IsMember(e, visited))))
+        if es == Pair:
+            val = VTuple((Pair.p(e), Pair.i(e)))
+        else:
+            val = e
+        self.assign_target(hb, s.target, val, s)
+        hb.env['_elem%d' % k] = e
+        for (b2, out) in self.exec_block(s.body, hb):
+            if out in (None, 'continue'):
+                cur = self.as_set(b2, self.ev(s.iter, b2), s)
+                self.oblige(b2, 'safe:set-changed-during-iteration', s, cur[0] == arr0, 'the iterated set is not modified by the loop body', label=tag)
+                b2.env[vis] = VSetVal(z3.SetAdd(visited, e), es)
+                vb = self.view(b2)
+                for (lab, f) in S.labelled(spec.inv(vb) if spec.inv else [], 'inv'):
+                    self.oblige(b2, 'inv-preserve', s, f, 'loop invariant preserved by the body', label='%s:%s' % (tag, lab))
+            elif out == 'break':
+                results.append((b2, None))
+            else:
+                results.append((b2, out))
+        # exit
+        he = head
+        self.assume(he, z3.IsSubset(arr0, visited))
+        results.append((he, None))
+        return results
 
     def unroll(self, s, st, vals):
         states = [(st, None)]
@@ -1565,14 +1785,19 @@ class Executor:
             raise OutOfSubset('while loop %d (line %d) has no loop contract' % (k, s.lineno))
         return self.loop_with_inv(s, st, spec, k, rng=None)
 
-    def loop_with_inv(self, s, st, spec, k, rng):
+    def loop_with_inv(self, s, st, spec, k, rng, ctr_name=None, bind_fn=None):
         tag = 'loop%d' % k
         body = s.body
         names, roots = self.assigned_names(body)
+        if bind_fn is not None:
+            for e in ast.walk(s.target):
+                if isinstance(e, ast.Name):
+                    names.add(e.id)
+        names.update(getattr(spec, 'ghost_names', ()))
         ctr = None
         if rng is not None:
             lo, hi, step = rng
-            ctr = s.target.id if isinstance(s.target, ast.Name) else None
+            ctr = ctr_name or (s.target.id if isinstance(s.target, ast.Name) else None)
             if ctr is None:
                 raise OutOfSubset('for loop with non-name target under a loop contract')
             names.add(ctr)
@@ -1598,6 +1823,8 @@ class Executor:
             elif isinstance(v, Ref):
                 refs_to_havoc.append(v)
             elif isinstance(v, VPtr):
+                refs_to_havoc.append(v.ref)
+            elif isinstance(v, (VSetView, VMapView)):
                 refs_to_havoc.append(v.ref)
         for n in sorted(names):
             if n in head.env and isinstance(head.env[n], (Ref, VPtr)):
@@ -1672,7 +1899,15 @@ class Executor:
             self.assume(he, te)
             if not (isinstance(tb, bool) and not tb) and self.feasible(hb):
                 ctr0 = hb.env[ctr] if rng is not None else None
+                if bind_fn is not None:
+                    bind_fn(hb, ctr0)
+                if spec.enter is not None:
+                    for gname, gval in spec.enter(self.view(hb)).items():
+                        hb.env[gname] = gval
                 for (b2, out) in self.exec_block(body, hb):
+                    if out in (None, 'continue') and spec.step is not None:
+                        for gname, gval in spec.step(self.view(b2)).items():
+                            b2.env[gname] = gval
                     if out in (None, 'continue'):
                         if rng is not None:
                             b2.env[ctr] = self.binop(b2, ast.Add(), ctr0, step, s)
@@ -2048,6 +2283,8 @@ def _b_len(ex, st, node, x):
             return c.shape[0]
         if isinstance(c, SeqContent):
             return c.length
+        if isinstance(c, (SetListContent, MapListContent)):
+            return c.length
     if is_vec(x):
         n = vlen_fn(x)
         st.pc.append(n >= 0)
@@ -2141,6 +2378,15 @@ def _b_float(ex, st, node, x):
     return to_real(x)
 
 
+def _b_set(ex, st, node, *a):
+    if not a:
+        return VTuple(())           # empty set literal; its element sort is fixed by the context it is used in
+    sv = ex.as_set(st, a[0], node)
+    if sv is not None:
+        return VSetVal(sv[0], sv[1])
+    raise OutOfSubset('set(%r) at line %d' % (a[0], node.lineno))
+
+
 def _b_print(ex, st, node, *a, **k):
     return None
 
@@ -2198,7 +2444,7 @@ def _b_slice(ex, st, node, *a):
     return fresh_vec('slice')
 
 
-_BUILTINS = {'slice': _b_slice, 'print': _b_print, 'dict': _b_dict, 'len': _b_len, 'range': _b_range, 'prange': lambda ex, st, node, *a, **k: _b_range(ex, st, node, *a),
+_BUILTINS = {'set': _b_set, 'slice': _b_slice, 'print': _b_print, 'dict': _b_dict, 'len': _b_len, 'range': _b_range, 'prange': lambda ex, st, node, *a, **k: _b_range(ex, st, node, *a),
              'reversed': _b_reversed, 'min': _minmax(True), 'max': _minmax(False), 'abs': _b_abs, 'fabs': _b_abs,
              'int': _b_int, 'tuple': _b_tuple, 'list': _b_list, 'enumerate': _b_enumerate, 'zip': _b_zip,
              'bool': _b_bool, 'float': _b_float, 'isinstance': _b_isinstance}
